@@ -108,11 +108,18 @@ def epsAfterNetlist (sqrt : α → α) (tiny : α) (st : Option (α × α)) (ms 
 /-- `netlist.fixed_rectangles()` as `Rectangle`s of the die model: the fixed entries of the flat list, document order. -/
 def fixedRects (ms : List (NL.Mod α)) : List (Rect α) := (NL.fixedOf (ms.flatMap (·.rects))).map NL.NRect.toRect
 
-/-- what the caller's `Netlist(ndoc)` leaves behind: the loaded netlist, its fixed rectangles, the tolerance in force. -/
+/-- what the caller's `Netlist(ndoc)` leaves behind: the loaded netlist, its fixed rectangles, the class-wide tolerance
+    (`none` = still undefined: no tolerance was defined before and the netlist — terminals only — proposes none). -/
 structure Loaded (α : Type) where
   netlist : NL.Netlist α
   fixed : List (Rect α)
-  st : α × α
+  st : Option (α × α)
+
+/-- the tolerances the netlist's own checks run under (nothing reads them when none is defined: no rectangle exists then). -/
+def tolOf (st : Option (α × α)) : α × α :=
+  match st with
+  | some p => p
+  | none => (zero, zero)
 
 /-- `netlist = Netlist(ndoc)` in the tolerance state `st`, then `netlist.fixed_rectangles()`. -/
 def loadNetlist (sqrt : α → α) (tiny : α) (stogOf : α → α → List (NL.NRect α) → List (NL.NRect α))
@@ -120,12 +127,10 @@ def loadNetlist (sqrt : α → α) (tiny : α) (stogOf : α → α → List (NL.
   match NL.parseDoc ndoc with
   | .error _ => .error .netlist
   | .ok (ms, es) =>
-    match epsAfterNetlist sqrt tiny st ms with
-    | none => .error .infTol
-    | some (d, a) =>
-      match NL.finish (stogOf d a) a ms es with
-      | .error _ => .error .netlist
-      | .ok nl => .ok { netlist := nl, fixed := fixedRects ms, st := (d, a) }
+    let τ := epsAfterNetlist sqrt tiny st ms
+    match NL.finish (stogOf (tolOf τ).1 (tolOf τ).2) (tolOf τ).2 ms es with
+    | .error _ => .error .netlist
+    | .ok nl => .ok { netlist := nl, fixed := fixedRects ms, st := τ }
 
 /-- `Die(stream, Netlist(ndoc))` resp. `Die(stream)` (`ndoc = none`), from the documents.
     `picks = none` runs the deterministic cover. -/
@@ -137,7 +142,7 @@ def construct (pf : List Char → Option α) (ry : String → Option (YV α)) (s
     | none => .ok (st, [])
     | some nd => match loadNetlist sqrt tiny stogOf st nd with
       | .error e => .error e
-      | .ok l => .ok (some l.st, l.fixed)
+      | .ok l => .ok (l.st, l.fixed)
   match pre with
   | .error e => .error e
   | .ok (st1, fixed) =>
@@ -157,7 +162,7 @@ def gridFor (pf : List Char → Option α) (ry : String → Option (YV α)) (sqr
     | none => .ok (st, [])
     | some nd => match loadNetlist sqrt tiny stogOf st nd with
       | .error e => .error e
-      | .ok l => .ok (some l.st, l.fixed)
+      | .ok l => .ok (l.st, l.fixed)
   match pre with
   | .error e => .error e
   | .ok (st1, fixed) =>
